@@ -318,13 +318,13 @@ class C17(vlib.Spec):
         out = []
         for _ in range(n // 10):
             out.append(chunks_case(rng))
-        for _ in range(min(n // 50, 2000)):
+        for _ in range(min(n // 75, 2000)):
             out.append(real_case(rng, "msr"))
-        for _ in range(min(n // 50, 2000)):
+        for _ in range(min(n // 75, 2000)):
             out.append(real_case(rng, "str"))
-        for _ in range(min(n // 50, 2000)):
+        for _ in range(min(n // 75, 2000)):
             out.append(real_case(rng, "trc"))
-        for _ in range(min(n // 40, 2500)):
+        for _ in range(min(n // 60, 2500)):
             out.append(e2e_case(rng))
         for _ in range(n // 40):
             out.append(rde_case(rng))
